@@ -40,7 +40,7 @@ ANCHORS = [
     ('pjrpc/client/client.py', 'Batch.call'), ('pjrpc/client/client.py', 'AsyncBatch.call'),
     ('pjrpc/client/retry.py', 'retry'), ('pjrpc/client/retry.py', 'retry_async'),
 ]
-FLOORS = {'*': {'pair:dispatch-text': 3000, 'pair:dispatch-plain-vs-coroutine': 3000, 'pair:middleware': 500, 'pair:retry': 500,
+FLOORS = {'*': {'trace:falsy-caller-context': 40, 'pair:dispatch-text': 3000, 'pair:dispatch-plain-vs-coroutine': 3000, 'pair:middleware': 500, 'pair:retry': 500,
                 'pair:notation': 300, 'notation:application-encoder-writes-the-request-objects': 100, 'pair:match': 300, 'pair:notification-body': 150, 'pair:batch-object-reused': 30, 'pair:call-answered-with-an-odd-body': 100, 'pair:httpx-backends': 200, 'httpx-backends:non-ascii-body-bytes': 50, 'retry:with-tracers': 200, 'retry:retried': 200, 'pair:trace': 300,
                 'middleware:failing-with-handlers': 100}}
 
@@ -203,6 +203,33 @@ def run_retry(ctx, spec, codes, excs, n_tracers, requests):
     ctx.ok('retry', cls, sample={'backoff': spec, 'requests': requests, 'sync_observation': obs[False][0]})
 
 
+class _FalsyCtx:
+    """a caller's trace context that is an (as yet) empty container of its own"""
+
+    def __init__(self):
+        self.spans = []
+
+    def __len__(self):
+        return len(self.spans)
+
+
+class _NeverTrueCtx:
+    def __bool__(self):
+        return False
+
+
+TRACE_CTX_KINDS = ('namespace', 'empty-dict', 'empty-list', 'zero', 'empty-str', 'empty-container-object', 'bool-false-object',
+                   'dict', 'tuple')
+
+
+def make_trace_ctx(kind):
+    """what a caller may hand over as `_trace_ctx`: any object of its choosing, whatever its truth value"""
+    if kind is True or kind == 'namespace':
+        return SimpleNamespace(tag='caller')
+    return {'empty-dict': dict, 'empty-list': list, 'zero': lambda: 0, 'empty-str': str, 'empty-container-object': _FalsyCtx,
+            'bool-false-object': _NeverTrueCtx, 'dict': lambda: {'trace': 'id'}, 'tuple': lambda: ('trace', 1)}[kind]()
+
+
 def run_trace(ctx, n_tracers, attempts, script, kind, supplied_ctx):
     """C19's scripted attempt outcomes (incl. BaseException and CancelledError raised by the transport) on both clients"""
     obs = {}
@@ -220,7 +247,9 @@ def run_trace(ctx, n_tracers, attempts, script, kind, supplied_ctx):
 
         cls_ = clientside.AsyncClient if is_async else clientside.SyncClient
         client = cls_(transport, tracers=tracers, retry_strategy=strategy)
-        tctx = SimpleNamespace(tag='caller') if supplied_ctx else None
+        tctx = make_trace_ctx(supplied_ctx) if supplied_ctx else None
+        if supplied_ctx and not tctx:
+            ctx.hit('trace:falsy-caller-context')
         if kind == 'batch':
             req = v20.BatchRequest(v20.Request('a', [1], id=1), v20.Request('b', [2], id=2))
             st, out = clientside.outcome_of(lambda: client.batch.send(req, _trace_ctx=tctx), is_async)
@@ -571,7 +600,8 @@ def gen(ctx):
         for script in scripts:
             k += 1
             yield 'trace', dict(n_tracers=1 + k % 3, attempts=attempts, script=list(script),
-                                kind=('single', 'batch', 'notification')[k % 3], supplied_ctx=bool(k % 2))
+                                kind=('single', 'batch', 'notification')[k % 3],
+                                supplied_ctx=(False, True, TRACE_CTX_KINDS[(k // 4) % len(TRACE_CTX_KINDS)], True)[k % 4])
     for program in ([1, 1], [2, 1], [2, 0], [1, 2, 1], [0, 1], [3, 3], [1, 0, 0], [2, 2, 2, 2]):
         for via_proxy in (False, True):
             for fail_first in (False, True):
